@@ -24,7 +24,8 @@ ROOT_CAUSE_SUFFIXES = ('cells:lookup-KeyError-stale', 'summary-rows-renumbered')
 def strategy(tier):
   n = 14 if tier == 'thorough' else 10
   return st.one_of(st.fixed_dictionaries({'h': O.history('general', 1, n)}),
-                   st.fixed_dictionaries({'h': O.history('schema', 1, n)}))
+                   st.fixed_dictionaries({'h': O.history('schema', 1, n)}),
+                   st.fixed_dictionaries({'h': O.history('typechange', 1, n)}))
 
 
 def run_case(case):
